@@ -114,8 +114,19 @@ def check_protocol(ctx, model, clauses):
                     else:
                         # must be followed by a replace onto the load path
                         later = [x for x in evs[i:] if x['ev'] == 'replace' and canon(x['src']) == canon(path) and canon(x['dst']) in load_paths]
-                        uniq = path is not None and any(call_name(x) in ('os.getpid', 'getpid', 'uuid.uuid4', 'uuid4', 'threading.get_ident', 'get_ident', 'tempfile.mktemp', 'time.time_ns') or
-                                                        (model.sym(x) and model.kind(x) == 'tmp') for x in ast.walk(path))
+                        names_ = {call_name(x) for x in ast.walk(path)} if path is not None else set()
+                        own = path is not None and (bool(names_ & {'uuid.uuid4', 'uuid4', 'tempfile.mktemp'}) or any(model.sym(x) and model.kind(x) == 'tmp' for x in ast.walk(path)))
+                        has_pid = bool(names_ & {'os.getpid', 'getpid'})
+                        has_tid = bool(names_ & {'threading.get_ident', 'get_ident', 'threading.get_native_id', 'get_native_id'})
+                        # unique per writer: a name of its own (uuid / mkstemp), or the process id AND the
+                        # thread id, both read when the file is written (a pid read at import time is
+                        # the parent's in a forked worker)
+                        uniq = own or (has_pid and has_tid)
+                        if later and not uniq and (has_pid or has_tid):
+                            ctx.violation('R10-atomic-publish', fi, st + ' [temporary name: %s]' % tmp_name_parts(path), 'the temporary path carries %s but not %s (read at the moment of writing): %s write the same temporary file, and the second os.replace fails with FileNotFoundError or publishes a mix' % (
+                                'the process id' if has_pid else 'the thread id', 'the thread id' if has_pid else 'the process id',
+                                'two threads of one process defining same-named classes' if has_pid else 'two processes (e.g. workers forked after the import) whose threads have the same id'), line, clause='A', witness=True)
+                            continue
                         if later and not uniq:
                             ctx.violation('R10-atomic-publish', fi, st + ' [temporary name: %s]' % tmp_name_parts(path), 'the temporary path is not unique per process (no pid / mkstemp): two processes defining the class at the same time write the same temporary file and the second os.replace fails with FileNotFoundError or publishes a mix', line, clause='A')
                         elif later:
